@@ -43,6 +43,11 @@ def inj(prop, tier):
     return stage(M.inject_stage, prop, tier, "inject_" + tier[0])
 
 
+def inj_dev(prop, tier):
+    """the same injections into the unoptimised build (dev profile): reads the optimiser removes are real there"""
+    return stage(M.inject_stage, prop, tier, "inject_dev_" + tier[0], cfg="d")
+
+
 def tr(prop, tier, name, seed):
     runs, nops = (200, 30) if tier == "quick" else (4000, 40)
     return stage(M.trace_stage, prop, tier, name, seed, runs, nops)
@@ -85,14 +90,14 @@ def c02(tier, seed):
         return [mm("C02", tier, "mm_clone_drop_q", [("c02_2x3", ops, 2, 3, 2, False), ("c02_3x2", ops, 3, 2, 1, False),
                                                      ("c02_2x4", ops + ["count"], 2, 4, 1, False),
                                                      ("c02_2x3u", ops + ["try_unwrap"], 2, 3, 2, False)]),
-                tr("C02", tier, "threads_q", seed), inj("C02", tier),
+                tr("C02", tier, "threads_q", seed), inj("C02", tier), inj_dev("C02", tier),
                 # a read through a handle that unwinds (panicking callback / comparison / hash impl) must leave every count alone
                 ] + c02_reads(tier)
     return [mm("C02", tier, "mm_clone_drop_t", [("c02_2x3", ops, 2, 3, 2, False), ("c02_3x3", ops, 3, 3, 1, False),
                                                  ("c02_4x2", ops, 4, 2, 1, False), ("c02_2x5", ops, 2, 5, 2, False),
                                                  ("c02_3x2h", ops + ["count"], 3, 2, 1, True),
                                                  ("c02_3x2u", ops + ["try_unwrap"], 3, 2, 1, False)]),
-            tr("C02", tier, "threads_t", seed), inj("C02", tier)] + c02_reads(tier)
+            tr("C02", tier, "threads_t", seed), inj("C02", tier), inj_dev("C02", tier)] + c02_reads(tier)
 
 
 def lay(prop, tier, name):
@@ -269,7 +274,7 @@ def c01(tier, seed):
                 sized("C01", tier, "sized_life_debug_q", BASE + CONV_CORE + ["Borrow", "Enter", "Exit", "TryUnique", "MakeMut", "TryUnwrap", "IntoInner"], 3, 2, 1, harness_cfg="d"),
                 thin("C01", tier, "thin_life_debug_q", THIN_OPS, 3, 2, 1, 1, harness_cfg="d"),
                 mm("C01", tier, "mm_clone_drop_q", [("c01_2x3", ["clone", "read", "drop"], 2, 3, 2, False)]),
-                nested_frames("C01", tier), thin_lengths("C01", tier), inj("C01", tier),
+                nested_frames("C01", tier), thin_lengths("C01", tier), inj("C01", tier), inj_dev("C01", tier),
                 # every release path of every shape returns the block once; real ArcSwap traffic keeps counts exact
                 lay("C01", tier, "layout_matrix_q"),
                 stage(CT.ctor_stage, "C01", tier, "release_q", ["release", "union_drop", "zst"], True, only_cats=["frees", "drops", "baddrop", "leak", "crash", "panicked"])] + swaps("C01", tier, seed) + long_walks("C01", tier, seed)
@@ -281,7 +286,7 @@ def c01(tier, seed):
             sized("C01", tier, "sized_life_nostd_t", BASE + CONV + BORROW + UNIQ + COW + UNWRAP, 3, 2, 1, harness_cfg="b"),
             sized("C01", tier, "sized_life_debug_t", BASE + CONV + BORROW + UNIQ + COW + UNWRAP, 3, 2, 1, harness_cfg="d"),
             thin("C01", tier, "thin_life_debug_t", THIN_OPS, 4, 2, 1, 2, harness_cfg="d"),
-            mm("C01", tier, "mm_clone_drop_t", [("c01_2x3", ["clone", "read", "drop"], 2, 3, 2, False), ("c01_3x3", ["clone", "read", "drop"], 3, 3, 1, False)]), inj("C01", tier),
+            mm("C01", tier, "mm_clone_drop_t", [("c01_2x3", ["clone", "read", "drop"], 2, 3, 2, False), ("c01_3x3", ["clone", "read", "drop"], 3, 3, 1, False)]), inj("C01", tier), inj_dev("C01", tier),
             lay("C01", tier, "layout_matrix_t"),
             stage(CT.ctor_stage, "C01", tier, "release_t", ["release", "union_drop", "zst"], True, only_cats=["frees", "drops", "baddrop", "leak", "crash", "panicked"])] + swaps("C01", tier, seed) + long_walks("C01", tier, seed)
 
